@@ -45,4 +45,15 @@ CHECKS["C05"] = dict(
     design="5 C05", note=L3_NOTE,
     technique="TLA+ grammar-mode cases (TLC) replayed on the real CLI; independent per-class validity judge")
 
+CHECKS["C02"] = dict(
+    level="model_checking",
+    text="The walker specification has no access to literal contents (only class and position), so non-interference holds of the model "
+         "by construction (that is the abstraction); the check turns the abstraction into a statement about the code: every TLC-generated "
+         "abstract case with sensitive literals is concretised k times - identical except for the contents of those literals, classes "
+         "preserved (all secrets equal; random lengths 0..20 kB, JSON metacharacters, other number notations, both booleans) - and the "
+         "k output lines of the real CLI must be byte-identical. A two-run hyperproperty over all positions, which one-run assertions "
+         "cannot express.",
+    design="5 C02", note=L3_NOTE + " The specification's prediction is used only to select which literals are varied.",
+    technique="TLA+ abstraction soundness: k concretisations per TLC-generated abstract case, byte-equality of real CLI outputs")
+
 NOT_YET = {}
